@@ -100,6 +100,10 @@ type Gen struct {
 	refComps    map[string]bool       // components whose cells hold references
 	compType    map[string]types.Type // leaf Go type of O: components
 	typed       map[*Term]bool
+	readsOK     map[string]bool
+	readsSeen   map[string]bool
+	readsChecking bool
+	loopPreClk  *Term // clock when the loop being framed was entered
 	heapClk     map[*Term]*Term // heap component version -> clock when it was written
 	freshRefs   map[*Term]bool  // objects allocated by this function that have not escaped yet
 	quietEpoch  bool            // the current write goes to a non-escaped fresh object
@@ -161,6 +165,8 @@ func (g *Gen) reset() {
 	g.strLits = map[string]*Term{}
 	g.defers = nil
 	g.callOrd = map[string]int{}
+	g.readsOK = nil
+	g.readsSeen = nil
 	g.heapClk = map[*Term]*Term{}
 	g.typed = map[*Term]bool{}
 	if g.compType == nil {
@@ -449,6 +455,7 @@ func (g *Gen) load(st *State, a *Addr, ty types.Type) Val {
 		if a.Root == RObj {
 			g.compType[name] = lf.Ty
 		}
+		g.checkReads(name, a)
 		if isRefType(lf.Ty) || strings.HasSuffix(lf.Path, "#arr") {
 			g.refComps[name] = true
 		}
@@ -717,6 +724,7 @@ func (g *Gen) bind(st *State, v ssa.Value, x Val) {
 	}
 	nv := buildVal(v.Type(), func(lf leaf) *Term { return Const(g.prefix+"!"+v.Name()+lf.Path, lf.Sort) })
 	g.equate(nv, x)
+	nv.KeyT = x.KeyT
 	g.env[v] = nv
 }
 
@@ -1171,7 +1179,7 @@ func (g *Gen) loopHead(b *ssa.BasicBlock, l *Loop, st *State, fwd []*ssa.BasicBl
 		})
 		sc.loopHeader = b
 		for _, cl := range invs {
-			t, err := sc.boolTerm(cl.E)
+			t, err := g.invTerm(sc, cl)
 			if err != nil {
 				g.BindErrs = append(g.BindErrs, fmt.Sprintf("loop %d invariant %q: %v", l.Ordinal, cl.Text, err))
 				continue
@@ -1214,7 +1222,9 @@ func (g *Gen) loopHead(b *ssa.BasicBlock, l *Loop, st *State, fwd []*ssa.BasicBl
 			if loopAllow != nil && !strings.HasPrefix(n, "I:") {
 				// the loop's modifies clause: everything else keeps its pre-loop value
 				// (checked at each back edge)
+				g.loopPreClk = st.Clk
 				g.assume(g.unchangedOutside(n, hv, st.Heap[n], st.Clk, loopAllow[n], false))
+				g.loopPreClk = nil
 			}
 			hs.Heap[n] = hv
 		}
@@ -1255,7 +1265,7 @@ func (g *Gen) loopHead(b *ssa.BasicBlock, l *Loop, st *State, fwd []*ssa.BasicBl
 		sc := g.specCtx(hs, g.entry, nil)
 		sc.loopHeader = b
 		for _, cl := range invs {
-			t, err := sc.boolTerm(cl.E)
+			t, err := g.invTerm(sc, cl)
 			if err != nil {
 				continue
 			}
@@ -1279,7 +1289,7 @@ func (g *Gen) loopHead(b *ssa.BasicBlock, l *Loop, st *State, fwd []*ssa.BasicBl
 		sort.Strings(names)
 		for _, n := range names {
 			for _, ah := range headAllow[n] {
-				if ah.any || ah.sinceEntry || ah.ref == nil {
+				if ah.any || ah.sinceEntry || ah.sinceLoop || ah.ref == nil {
 					continue
 				}
 				alts := []*Term{Gt(ah.ref, st.Clk)}
@@ -1311,7 +1321,20 @@ func (g *Gen) loopInvs(l *Loop) []*Clause {
 	if g.C == nil {
 		return nil
 	}
-	return g.C.LoopInv[l.Ordinal]
+	invs := g.C.LoopInv[l.Ordinal]
+	// the hidden index of a range-over-slice loop starts at -1 and only grows: a
+	// synthesised (and checked like any other) invariant
+	for _, in := range l.Header.Instrs {
+		if phi, ok := in.(*ssa.Phi); ok && phi.Comment == "rangeindex" {
+			{
+				e, _ := ParseExpr("-1 <= rangeindex")
+				cl := &Clause{Kind: "loop-invariant", Text: "-1 <= rangeindex && (rangeindex == -1 || rangeindex < <range length>) (synthesised)", E: e, RangeBound: rangeBound(l.Header, phi)}
+				invs = append([]*Clause{cl}, invs...)
+			}
+			break
+		}
+	}
+	return invs
 }
 
 func (g *Gen) backEdge(from, header *ssa.BasicBlock, st *State) {
@@ -1343,7 +1366,7 @@ func (g *Gen) backEdge(from, header *ssa.BasicBlock, st *State) {
 	})
 	sc.loopHeader = header
 	for _, cl := range invs {
-		t, err := sc.boolTerm(cl.E)
+		t, err := g.invTerm(sc, cl)
 		if err != nil {
 			g.BindErrs = append(g.BindErrs, fmt.Sprintf("loop %d invariant %q: %v", li.L.Ordinal, cl.Text, err))
 			continue
@@ -1360,7 +1383,9 @@ func (g *Gen) backEdge(from, header *ssa.BasicBlock, st *State) {
 			if cur == nil || head == nil || cur == head {
 				continue
 			}
+			g.loopPreClk = li.PreState.Clk
 			goal := g.unchangedOutside(n, cur, head, li.HavocState.Clk, li.Allow[n], true)
+			g.loopPreClk = nil
 			if !goal.IsTrue() {
 				g.oblige(bst, "loop-frame", fmt.Sprintf("@loop%d", li.L.Ordinal), "loop modifies: "+n+" unchanged outside the loop's modifies clause", header.Instrs[0].Pos(), goal)
 			}
@@ -1425,4 +1450,86 @@ func isRefType(t types.Type) bool {
 		return true
 	}
 	return false
+}
+
+// rangeBound finds the length value a range-over-slice loop compares its hidden
+// index against (header: t = phi+1; if t < N).
+func rangeBound(h *ssa.BasicBlock, phi *ssa.Phi) ssa.Value {
+	if len(h.Instrs) == 0 {
+		return nil
+	}
+	iff, ok := h.Instrs[len(h.Instrs)-1].(*ssa.If)
+	if !ok {
+		return nil
+	}
+	cmp, ok := iff.Cond.(*ssa.BinOp)
+	if !ok || cmp.Op != token.LSS {
+		return nil
+	}
+	inc, ok := cmp.X.(*ssa.BinOp)
+	if !ok || inc.Op != token.ADD || inc.X != ssa.Value(phi) {
+		return nil
+	}
+	return cmp.Y
+}
+
+// invTerm translates a loop invariant clause (including the synthesised range bound).
+func (g *Gen) invTerm(sc *SCtx, cl *Clause) (*Term, error) {
+	t, err := sc.boolTerm(cl.E)
+	if err != nil || cl.RangeBound == nil {
+		return t, err
+	}
+	rv, ok := cl.RangeBound.(ssa.Value)
+	if !ok {
+		return t, nil
+	}
+	idx, err := sc.ident("rangeindex")
+	if err != nil || idx.K != VScalar {
+		return t, nil
+	}
+	n := g.val(sc.state(), rv)
+	if n.K != VScalar || n.T == nil || n.T.S != SInt {
+		return t, nil
+	}
+	return And(t, Or(Eq(idx.T, IntLit(-1)), Lt(idx.T, n.T))), nil
+}
+
+// checkReads: a verified function with a reads clause may load only from the
+// declared components (objects it allocated itself are exempt).
+func (g *Gen) checkReads(comp string, a *Addr) {
+	if g.C == nil || g.C.Reads == nil || g.C.Trusted || g.quiet || g.readsChecking {
+		return
+	}
+	if a.Root == RGlobal || (a.Ref != nil && g.freshRefs[a.Ref]) {
+		return
+	}
+	if g.readsOK == nil {
+		g.readsChecking = true
+		g.readsOK = map[string]bool{}
+		sc := g.specCtx(g.entry, g.entry, nil)
+		for _, n := range g.readsComps(g.C, sc) {
+			g.readsOK[n] = true
+		}
+		g.readsChecking = false
+	}
+	if g.readsOK[comp] || g.readsSeen[comp] {
+		return
+	}
+	// components first seen now may belong to a declared type: re-resolve lazily
+	sc := g.specCtx(g.entry, g.entry, nil)
+	g.readsChecking = true
+	for _, n := range g.readsComps(g.C, sc) {
+		g.readsOK[n] = true
+	}
+	g.readsChecking = false
+	if g.readsOK[comp] {
+		return
+	}
+	if g.readsSeen == nil {
+		g.readsSeen = map[string]bool{}
+	}
+	g.readsSeen[comp] = true
+	if g.pass >= 2 {
+		g.BindErrs = append(g.BindErrs, "reads clause violated: the function loads from "+comp)
+	}
 }
